@@ -132,6 +132,33 @@ pub fn compare_row(
     true
 }
 
+/// Compare two rows across key arrays for GROUPING (GROUP BY, DISTINCT, UNION
+/// de-duplication): SQL puts every NULL key in ONE group, so here NULL equals
+/// NULL and differs from any non-NULL value ("IS NOT DISTINCT FROM"), unlike
+/// the join-key equality of `compare_row`. Consistent with `hash_arrays`,
+/// which leaves the running hash untouched for a NULL, so all NULLs of a key
+/// column land in the same bucket.
+#[inline]
+pub fn compare_row_grouping(
+    arrays_a: &[ArrayRef],
+    row_a: usize,
+    arrays_b: &[ArrayRef],
+    row_b: usize,
+) -> bool {
+    for (a, b) in arrays_a.iter().zip(arrays_b.iter()) {
+        match (a.is_null(row_a), b.is_null(row_b)) {
+            (true, true) => continue,
+            (false, false) => {
+                if !compare_array_values(a, row_a, b, row_b) {
+                    return false;
+                }
+            }
+            _ => return false,
+        }
+    }
+    true
+}
+
 /// Compare a single value between two arrays at given rows.
 #[inline]
 fn compare_array_values(a: &ArrayRef, row_a: usize, b: &ArrayRef, row_b: usize) -> bool {
